@@ -342,12 +342,12 @@ def com_array(g):
     return a
 
 
-def add_stale_state(ctx, me, g, names):
+def add_stale_state(ctx, me, g, names, fork=True):
     """History pre-state: forks on "earlier workflow steps already ran on this object", in which case the named fields already
     hold ARBITRARY OTHER values (not None).  What a method recomputes must come from this call, what it only reads must survive."""
     from pyvc.interp import _value_signature
 
-    if ctx.branch(ctx.fresh("earlier_workflow_steps_already_ran", "bool").t):
+    if fork and ctx.branch(ctx.fresh("earlier_workflow_steps_already_ran", "bool").t):
         for n in names:
             if n in ("_origin_measured", "_origin_fitted"):
                 a = ctx.fresh_arr("stale" + n, (g.N, 2), "real")
@@ -961,7 +961,8 @@ def so_setup(ctx, weak=False):
     om = ctx.fresh_arr("origin_measured", (N, 2), "real")  # the measured origins of an earlier calculate_origin(): read-only here
     om.as_type = torch.Tensor
     me.fields["_origin_measured"] = om
-    add_stale_state(ctx, me, g, ["_shifted_tensor", "_detector_transpose", "_detector_rotation_deg"])
+    # the history pre-state is explored in the any-shift view (frames, shape); the roll view keeps the first-call pre-state
+    add_stale_state(ctx, me, g, ["_shifted_tensor", "_detector_transpose", "_detector_rotation_deg"], fork=weak)
     g.fields0 = dict(me.fields)
     g.mode = mode
     return NS(self=me, origin_coordinate=(cy, cx), max_batch_size=opt_int(ctx, "max_batch_size"), param_values={"mode": mode}, g=g,
@@ -1956,6 +1957,9 @@ TRUSTED = [
     "finite sums: congruence only (equal bounds and equal summands => equal sums; first-order encoding F_shape(n, parameters)); "
     "sum of a constant summand = max(n,0)*c; NO linearity / reordering facts are used",
     "torch.roll(x, s, d)[i] = x[(i - s) mod n] (pyvc/lib/torch_.py), used only in the roll lemma",
+    "estimate_detector_rotation: torch.flip = reversed COPY, deg2rad = x*pi/180, mean over axes, x.min() / torch.argmin / element of a concrete "
+    "tensor at a symbolic position = SOME value (unspecified; only frame / shape facts are claimed there); reshape / view results ALIAS their source "
+    "(a write through them counts as a write into the stored tensor - torch may copy for non-contiguous sources, so this is the conservative reading)",
     "T2: row-major numbering q = r*cols + c is a bijection between scan positions and [0, rows*cols) (its arithmetic half is proved as a lemma)",
     "pyvc engine (AST interpreter, loop rule with arbitrary-iteration + invariant, path exploration), z3, cvc5",
 ]
@@ -1968,7 +1972,14 @@ ASSUMPTIONS = [
     "(free symbols constrained only to be in range), which is the universally quantified statement",
     "shift_origin_to is specified for H, W >= 2 and for patterns whose (fitted origin - target coordinate) is integer-valued; other shifts are bilinear "
     "interpolation and outside the claim",
-    "plane / parabola fits (scipy curve_fit, torch.linalg.eigh PCA) are NOT proved: bounded stand-ins on exact surfaces only",
+    "plane / parabola fits (scipy curve_fit, torch.linalg.eigh PCA) are NOT proved: bounded stand-ins on exact surfaces only; at call sites "
+    "(forward) a plane fit is an unspecified (num_dps, 2) array",
+    "forward is verified with its four steps used THROUGH their contracts (calculate_origin, fit_origin_background, estimate_detector_rotation and the "
+    "any-shift view of shift_origin_to, each verified from source in this module); 4-D datasets, inferred probe positions, default rotation angles",
+    "history quantifier: every workflow method is verified from a pre-state in which the fields it does not recompute hold arbitrary other values "
+    "(fork `re-run`), with one frame clause per stored field; sequences of calls follow by induction over these per-method contracts (plus the bounded "
+    "workflow-history check on the real object)",
+    "estimate_detector_rotation / forward with orientation estimate are specified for 4-D datasets only (the reshape to (Rx, Ry, 2) needs the scan axes)",
     "get_com_2d is proved for a stack of patterns (B,H,W) only (corner_centered=False); other ranks are covered by a bounded check (and fail, see findings)",
     "SimpleBatcher is specified only in the configuration the origin model uses (shuffle=False, no validation split); the general batcher is C09",
     "the detector mask of _set_intensities_com is any real array of detector shape; dtype conversion of the mask (np.asarray(..., float32)) is the identity under A1",
